@@ -2,8 +2,11 @@
 
 Three-way comparison on every case:
   implementation (quara.objects.operators.compose_qoperations on the working tree)
-  vs the extracted Coq model of the code AS CODED (Model/C06_Compose.v, op c06.compose; the model variants with the
-     proposed fixes switched on are tried when the as-coded model disagrees, so that a repaired tree is recognised)
+  vs the extracted Coq model of the code (Model/C06_Compose.v, op c06.compose).  The faithful model is the code AFTER the
+     three repairs of /verif/fixes (compose-mprocess-mprocess-order-layout, compose-mprocess-state-poststate-normalisation,
+     povm-generate-mprocess-mode1-eigenvectors): fix_mm = fix_ps = 1, generate_mprocess op mode 1.  The variants "as coded
+     before the fix" (flags 0, op mode 10) are evaluated only when the implementation disagrees with the faithful model, to
+     name the regression (site + signature of the old defect) instead of a generic model-mismatch
   vs an independent DIRECT evaluation with Kraus operators in numpy (props/c06_gen.py) — the property predicate."""
 import itertools, warnings, types
 from fractions import Fraction as Fr
@@ -159,7 +162,7 @@ def dec(vals, n):
     return {"tag": 5, "zero": bool(hdr[1]), "k": hdr[2], "shape": hdr[4:4 + r], "ps": data}
 
 
-def model_compose(ctx, n, sd, mobjs, fix_mm=0, fix_ps=0, ortho=1, ivec=None):
+def model_compose(ctx, n, sd, mobjs, fix_mm=1, fix_ps=1, ortho=1, ivec=None):
     zs = [n, ortho, fix_mm, fix_ps, len(mobjs)]; qs = [sd, ATOL, EPS8] + ([] if ortho else list(ivec))
     for mo in mobjs:
         z, q = enc(mo); zs += z; qs += q
@@ -253,7 +256,11 @@ def eval_impl(tree, objs, fold=False):
 
 def eval_model(ctx, tree, mobjs, n, sd, fold=False, **kw):
     if fold:
-        return model_compose(ctx, n, sd, mobjs, **kw)
+        if len(mobjs) <= 3:
+            return model_compose(ctx, n, sd, mobjs, **kw)      # the model's own n-ary fold (compose_qoperations)
+        # longer chains: the fold IS the right-nested pairwise evaluation (Fixpoint compose_chain: x :: t |-> compose2 x (compose_chain t));
+        # evaluated pairwise so that every intermediate result is materialised (nested function matrices recompute entries)
+        tree = right_nested(0, len(mobjs))
 
     def ev(t):
         if isinstance(t, int):
@@ -475,14 +482,20 @@ def chk_chain(ctx, case):
                   label="%s len=%d %s%s%s" % (shape, len(descs), direct["kind"], " mm-node" if mm else "", " zero-outcome" if zero else ""))
         sub = dict(case, trees=[tr])
         # --- model <-> implementation
-        variant = "as-coded"
+        variant = "code"
         if impl[0] == "ok":
             mi = mobj_of_impl(impl[1])
             if mod[0] != "ok" or mobj_diff(mod[1], mi, tol) is not None:
-                alt = eval_model(ctx, tree, mobjs, n, sd, fold, fix_mm=1, fix_ps=1)
-                if alt[0] == "ok" and mobj_diff(alt[1], mi, tol) is None:
-                    variant = "fixed"
-                else:
+                # does one of the "as coded before fix" variants explain the implementation?  then the property predicate below
+                # names the regression; otherwise the correspondence itself is broken
+                variant = None
+                for fm, fp in ((0, 1), (0, 0), (1, 0)):
+                    alt = eval_model(ctx, tree, mobjs, n, sd, fold, fix_mm=fm, fix_ps=fp)
+                    if alt[0] == "ok" and mobj_diff(alt[1], mi, tol) is None:
+                        variant = "before-fix(mm=%d,ps=%d)" % (fm, fp)
+                        break
+                if variant is None:
+                    variant = "unexplained"
                     why = mobj_diff(mod[1], mi, tol) if mod[0] == "ok" else "model error %s" % (mod[1],)
                     ctx.violation("chains", "operators.compose_qoperations", "model-mismatch",
                                   "correspondence: implementation differs from the model of the code (%s); bracketing %s of %s" % (why, tr, types), sub)
@@ -496,21 +509,32 @@ def chk_chain(ctx, case):
         # --- property predicate
         if impl[0] != "ok":
             site, sig = "operators.compose_qoperations", "raises-on-physical-operands"
-            if mm:
-                site = SITE_MM; sig = "order+layout"
+            if mm and mod[0] == "ok":
+                # the faithful model composes these operands; does the MProcess o MProcess node as coded before the fix fail to?
+                old = eval_model(ctx, tree, mobjs, n, sd, fold, fix_mm=0, fix_ps=1)
+                if old[0] != "ok" or check_direct(shape, floatify(old[1]), direct, tol) is not None:
+                    site = SITE_MM; sig = "order+layout"
             ctx.violation("chains", site, sig, "composition of physical operands raised %s: %s (bracketing %s of %s)" % (impl[1], impl[2], tr, types), sub)
             continue
         bad = check_direct(shape, mi, direct, tol)
-        if bad is None and (d < 4 or case.get("exact_phys")):
-            p = check_physical(ctx, shape, mi)
+        if bad is None:
+            # physicality of the result: EXACT decision (verified psd_dec) on 1 qubit / qutrit always, on 2 qubits for states / POVM
+            # elements (4x4) always and for Choi matrices (16x16, ~0.3-1 s each) on a sample of cases with few outcome maps;
+            # otherwise the float eigvalsh decision with the same margin (LAPACK as oracle) - never skipped
+            heavy = d >= 4 and mi["tag"] in (1, 3)
+            exact = (not heavy) or (bool(case.get("exact_phys")) and mi.get("m", 1) <= ctx.n(3, 12))
+            p = check_physical(ctx, shape, mi, exact=exact)
+            ctx.dist["chains:physicality-" + ("exact" if exact else "float")] = ctx.dist.get("chains:physicality-" + ("exact" if exact else "float"), 0) + 1
             bad = ("not-physical", p) if p else None
         if bad is not None:
             site, sig = "operators.compose_qoperations", bad[0]
-            if mm:
-                # is the MProcess o MProcess node responsible?  the model with ONLY that node repaired must satisfy the predicate
-                alt = eval_model(ctx, tree, mobjs, n, sd, fold, fix_mm=1, fix_ps=0)
-                if alt[0] == "ok" and check_direct(shape, floatify(alt[1]), direct, tol) is None:
+            # a regression to the code before one of the fixes?  the "before fix" variant must reproduce the implementation
+            # (found above) and the faithful model must satisfy the predicate
+            if variant.startswith("before-fix") and mod[0] == "ok" and check_direct(shape, floatify(mod[1]), direct, tol) is None:
+                if "mm=0" in variant:
                     site, sig = SITE_MM, "order+layout"
+                elif "ps=0" in variant:
+                    site, sig = SITE_PS, "post-state-after-truncation"
             ctx.violation("chains", site, sig, "bracketing %s of %s (%s): %s" % (tr, types, shape, bad[1]), sub)
 
 
@@ -565,14 +589,17 @@ def rank1_projs(d):
 
 
 def gen_threshold_case(rng, d, variant):
-    """[M2, M1, rho] with M1 a measure-and-prepare instrument with trivial POVM (weights (1-w, w)) preparing
+    """[P, M2, M1, rho] with P a random POVM, M1 a measure-and-prepare instrument with trivial POVM (weights (1-w, w)) preparing
     U diag(q_x) U^dag, and M2 the rank-1 Lueders measurement in the basis U: joint probabilities are EXACTLY w_x * q_x[y]."""
     U = G.rand_unitary(rng, d)
     eps2 = {"exact-zero": rng.choice([1e-8, 1e-3]), "below": rng.choice([1e-8, 1e-5, 1e-3]), "above": 1e-3,
-            "small-weight": 1e-8, "none": rng.choice([1e-8, 1e-3]), "tiny-retained": 1e-8}[variant]
+            "small-weight": 1e-8, "none": rng.choice([1e-8, 1e-3]), "tiny-retained": 1e-8, "ens-band": 1e-8}[variant]
+    # ens-band: the EARLIER process has the larger eps_zero (1e-3); the later one (1e-8) retains a joint weight w*t = 1e-4, which lies
+    # below the eps_zero = max(...) of the resulting ensemble: Povm on that ensemble zeroes the block (threshold of _Povm_StateEnsemble)
+    eps1 = 1e-3 if variant == "ens-band" else 1e-8
     t = {"exact-zero": Fr(0), "below": Fr(eps2).limit_denominator(10 ** 12) / 4, "above": Fr(1, 20),
-         "small-weight": Fr(5, 100000), "none": Fr(1, 7), "tiny-retained": Fr(5, 10 ** 7)}[variant]
-    w = Fr(1, 10000) if variant == "small-weight" else rng.choice([Fr(1, 3), Fr(1, 2), Fr(1, 100)])
+         "small-weight": Fr(5, 100000), "none": Fr(1, 7), "tiny-retained": Fr(5, 10 ** 7), "ens-band": Fr(1, 100)}[variant]
+    w = Fr(1, 10000) if variant == "small-weight" else (Fr(1, 100) if variant == "ens-band" else rng.choice([Fr(1, 3), Fr(1, 2), Fr(1, 100)]))
     qs = []
     for x in range(2):
         rest = [Fr(rng.randint(1, 5)) for _ in range(d - 1)]
@@ -582,11 +609,11 @@ def gen_threshold_case(rng, d, variant):
             q = [Fr(1, d)] * d if variant == "small-weight" else q
         rng.shuffle(q) if variant == "none" else None
         qs.append(q)
-    M1 = {"t": "mproc", "kind": "prep", "shape": [2], "eps": 1e-8,
+    M1 = {"t": "mproc", "kind": "prep", "shape": [2], "eps": eps1,
           "elems": [{"prep": [G.gjson(G.gscale(wx, G.geye(d))), G.gjson(diag_state(U, q))]} for wx, q in zip([1 - w, w], qs)]}
     M2 = {"t": "mproc", "kind": "luders", "shape": [d], "eps": eps2,
           "elems": [{"k": [[G.fjson(1), G.gjson(G.gmul(G.gmul(U, P), G.gadj(U)))]]} for P in rank1_projs(d)]}
-    return [M2, M1, G.gen_state(rng, d)]
+    return [G.gen_povm(rng, d, kind=rng.choice(["generic", "mixed", "proj"])), M2, M1, G.gen_state(rng, d)]
 
 
 def chk_threshold(ctx, case):
@@ -603,45 +630,54 @@ def chk_threshold(ctx, case):
         sub_objs, sub_m, sub_s = objs[lo:], mobjs[lo:], sems[lo:]
         direct = G.direct_chain(sub_s, d)
         impl = call_impl(lambda: eval_impl(None, sub_objs, True))
-        mod = model_compose(ctx, n, sd, sub_m)
+        mod = model_compose(ctx, n, sd, sub_m, fix_mm=1, fix_ps=0)      # as coded BEFORE fix compose-mprocess-state-poststate-normalisation
         ctx.count("thresholds", key=(shape, repr(descs), lo), nontrivial=case["variant"] != "tiny-retained", label="%s %s eps=%g len=%d" % (shape, case["variant"], eps_eff, len(sub_objs)))
         sub = dict(case, starts=[lo])
-        fixed = model_compose(ctx, n, sd, sub_m, fix_ps=1)
+        fixed = model_compose(ctx, n, sd, sub_m, fix_mm=1, fix_ps=1)    # the code
         # property on the model variants (exact): which of them satisfies it?
         pred = lambda mo: check_direct(shape, mo, direct, 1e-9, eps_allow=eps_eff)      # noqa: E731
         ok_coded = mod[0] == "ok" and pred(floatify(mod[1])) is None
         ok_fixed = fixed[0] == "ok" and pred(floatify(fixed[1])) is None
         if not ok_fixed:
-            raise AssertionError("harness expectation wrong: the repaired model does not satisfy the predicate: %s" % (pred(floatify(fixed[1])) if fixed[0] == "ok" else fixed,))
+            raise AssertionError("harness expectation wrong: the model of the code does not satisfy the predicate: %s" % (pred(floatify(fixed[1])) if fixed[0] == "ok" else fixed,))
         if impl[0] == "ok":
             mi = mobj_of_impl(impl[1])
-            dm = mobj_diff(mod[1], mi, 1e-9) if mod[0] == "ok" else "model error %s" % (mod[1],)
-            if dm is not None and (fixed[0] != "ok" or mobj_diff(fixed[1], mi, 1e-9) is not None):
-                ctx.violation("thresholds", SITE_PS, "model-mismatch", "correspondence: implementation differs from the model of the code (%s)" % dm, sub)
+            dm = mobj_diff(fixed[1], mi, 1e-9)
+            if dm is not None and (mod[0] != "ok" or mobj_diff(mod[1], mi, 1e-9) is not None):
+                ctx.violation("thresholds", "operators.compose_qoperations", "model-mismatch", "correspondence: implementation differs from the model of the code (%s) and from the code as it was before fix compose-mprocess-state-poststate-normalisation; operands %s" % (dm, [x["t"] for x in descs[lo:]]), sub)
             bad = pred(mi)
             if bad is not None:
                 ctx.violation("thresholds", SITE_PS if not ok_coded else "operators.compose_qoperations", "post-state-after-truncation" if not ok_coded else bad[0],
                               "%s, eps_zero=%g, operands %s: %s" % (case["variant"], eps_eff, [x["t"] for x in descs[lo:]], bad[1]), sub)
-        elif ok_coded and case["variant"] == "tiny-retained" and "not physically correct" in impl[2]:
-            # floating point, outside the technique (DESIGN 1): M_x(rho)/p_x with p_x ~ 5e-7 amplifies the 1e-17 rounding of M_x(rho)
-            # beyond the absolute validation tolerance 1e-13 of the State constructor.  Recorded, not an alarm (finding C06-4, informational).
+        elif case["variant"] == "tiny-retained" and "not physically correct" in impl[2]:
+            # a DECISION AT ITS THRESHOLD (HOWTO: compared only away from thresholds; the variant is counted as trivial): the exact post
+            # state is pure (eigenvalues 0,..,0,1 - on the boundary of the PSD cone) and M_x(rho)/p_x with p_x = 5e-7 amplifies the 1e-17
+            # rounding of M_x(rho) to ~1e-11, beyond the absolute validation tolerance 1e-13 of the State constructor.  Floating point,
+            # outside the technique (DESIGN 1).  Recorded in the distribution table, not an alarm.
             ctx.dist["thresholds:tiny-retained raise (rounding amplified by 1/p_x, informational)"] = ctx.dist.get("thresholds:tiny-retained raise (rounding amplified by 1/p_x, informational)", 0) + 1
         else:
-            # a raise on physical operands: the as-coded model must explain it (its post state is not normalised), otherwise it is unexplained
+            # a raise on physical operands: the model of the code BEFORE the fix must explain it (a post state that is not normalised, in the
+            # result or in an intermediate ensemble of the fold), otherwise it is unexplained
+            if ok_coded:
+                for k in range(lo + 1, len(descs) - 1):
+                    inter = model_compose(ctx, n, sd, mobjs[k:], fix_mm=1, fix_ps=0)
+                    if inter[0] == "ok" and check_direct(shape, floatify(inter[1]), G.direct_chain(sems[k:], d), 1e-9, eps_allow=eps_eff) is not None:
+                        ok_coded = False
+                        break
             ctx.violation("thresholds", SITE_PS if not ok_coded else "operators.compose_qoperations",
                           "post-state-after-truncation" if not ok_coded else "raises-on-physical-operands",
                           "%s, eps_zero=%g, operands %s: composition of physical operands raised %s: %s%s" % (
                               case["variant"], eps_eff, [x["t"] for x in descs[lo:]], impl[1], impl[2],
-                              " (the model of the code yields a post state that is not trace one)" if not ok_coded else ""), sub)
+                              " (the model of the code as it was before fix compose-mprocess-state-poststate-normalisation yields a post state that is not trace one)" if not ok_coded else ""), sub)
 
 
 def sub_thresholds(ctx):
     rng = ctx.rng
     cases = []
     for shape, d in (("1q", 2), ("3", 3)):
-        for variant in ("exact-zero", "below", "above", "small-weight", "none", "tiny-retained"):
+        for variant in ("exact-zero", "below", "above", "small-weight", "none", "tiny-retained", "ens-band"):
             for _ in range(ctx.n(3, 25)):
-                cases.append({"shape": shape, "variant": variant, "descs": gen_threshold_case(rng, d, variant), "starts": [0, 1]})
+                cases.append({"shape": shape, "variant": variant, "descs": gen_threshold_case(rng, d, variant), "starts": [0, 1, 2]})
     ctx.sample("thresholds", {"shape": cases[0]["shape"], "variant": cases[0]["variant"]})
     ctx.run_cases("thresholds", chk_threshold, cases)
 
@@ -707,7 +743,8 @@ def chk_errors(ctx, case):
         return
     dm = mobj_diff(mod[1], mobj_of_impl(impl[1]), 1e-9)
     if dm is not None:
-        alt = model_compose(ctx, n, sd, [mobj_of_impl(o) for o in ops], fix_mm=1, fix_ps=1)
+        # the regression to the behaviour before the fixes is named by the chains / thresholds sub-checks, not here
+        alt = model_compose(ctx, n, sd, [mobj_of_impl(o) for o in ops], fix_mm=0, fix_ps=0)
         if alt[0] != "ok" or mobj_diff(alt[1], mobj_of_impl(impl[1]), 1e-9) is not None:
             ctx.violation("errors", "operators._compose_qoperations", "model-mismatch", "case %s: %s" % (case, dm), case)
 
@@ -871,8 +908,9 @@ def chk_gen_mprocess(ctx, case):
     if not cert_ok:
         ctx.note("gen_mprocess: the %s output failed its certificate on a %s POVM (oracle inaccuracy, case skipped)" % ("sqrtm" if mode == 0 else "eigh", desc.get("kind")))
         return
-    mod = [m.try_call("c06.gm_gb", [d, mode], [ATOL] + basis_q + k) for k in kernel]
+    mod = [m.try_call("c06.gm_gb", [d, mode], [ATOL] + basis_q + k) for k in kernel]      # op mode 1 = the code after the fix
     site = "Povm.generate_mprocess(mode_backaction=%d)" % mode
+    before_fix = False
     # --- correspondence (physicality not required, so that the HS matrices are observable)
     if any(r[0] == "err" for r in mod):
         code = [r[1] for r in mod if r[0] == "err"][0]
@@ -880,11 +918,24 @@ def chk_gen_mprocess(ctx, case):
             ctx.violation("gen_mprocess", site, "model-mismatch", "model of the code: error %s, implementation %s" % (code, impl_np[:2] if impl_np[0] == "err" else "returned"), case)
         model_hss = None
     elif impl_np[0] == "err":
-        ctx.violation("gen_mprocess", site, "model-mismatch", "implementation raised %s: %s, the model of the code returns HS matrices" % impl_np[1:], case)
-        model_hss = None
+        # regression to the code before fix povm-generate-mprocess-mode1-eigenvectors, which raises the same way on this input?
+        old = [m.try_call("c06.gm_gb", [d, 10], [ATOL] + basis_q + k) for k in kernel] if mode == 1 else []
+        oc = [r[1] for r in old if r[0] == "err"]
+        if oc and ERRKIND.get(oc[0]) == impl_np[1]:
+            before_fix = True
+            model_hss = [np.array([float(x) for x in r[1]]).reshape(n, n) for r in mod]
+        else:
+            ctx.violation("gen_mprocess", site, "model-mismatch", "implementation raised %s: %s, the model of the code returns HS matrices" % impl_np[1:], case)
+            model_hss = None
     else:
         model_hss = [np.array([float(x) for x in r[1]]).reshape(n, n) for r in mod]
         md = max(np.abs(a - np.asarray(b)).max() for a, b in zip(model_hss, impl_np[1].hss))
+        if md > 1e-9 and mode == 1:
+            # regression to the code before fix povm-generate-mprocess-mode1-eigenvectors (rows of V, no conjugate)?  then the
+            # property predicate below names it; otherwise the correspondence itself is broken
+            old = [m.try_call("c06.gm_gb", [d, 10], [ATOL] + basis_q + k) for k in kernel]
+            if all(r[0] == "ok" for r in old) and max(np.abs(np.array([float(x) for x in r[1]]).reshape(n, n) - np.asarray(b)).max() for r, b in zip(old, impl_np[1].hss)) <= 1e-9:
+                before_fix = True; md = 0.0
         if md > 1e-9:
             ctx.violation("gen_mprocess", site, "model-mismatch", "HS matrices differ from the model of the code by %.3g" % md, case)
     # --- property predicate on the implementation's instrument
@@ -904,9 +955,9 @@ def chk_gen_mprocess(ctx, case):
     if bad is not None:
         sig = "instrument"
         if mode == 1:
-            # attribute: does the docstring formula (columns, conjugate) on the same eigh output satisfy the predicate?
-            fx = [m.try_call("c06.gm_gb", [d, 11], [ATOL] + basis_q + k) for k in kernel]
-            if all(r[0] == "ok" for r in fx) and instrument_predicate(ctx, shape, vecs, [np.array([float(x) for x in r[1]]).reshape(n, n) for r in fx], tol) is None:
+            # attribute: the implementation is (or raises like) the code before fix povm-generate-mprocess-mode1-eigenvectors, and the
+            # faithful model (columns of V, conjugate) on the same eigh output satisfies the predicate
+            if before_fix and model_hss is not None and instrument_predicate(ctx, shape, vecs, model_hss, tol) is None:
                 sig = "eigenvector-rows-no-conjugate"
         ctx.violation("gen_mprocess", site, sig, "%s POVM with %d outcomes on %s: %s" % (desc.get("kind"), len(vecs), shape, bad), case)
 
@@ -928,7 +979,7 @@ def chk_gm_errors(ctx, case):
 def sub_gen_mprocess(ctx):
     rng = ctx.rng
     cases = []
-    for shape, d, cnt in (("1q", 2, ctx.n(10, 80)), ("3", 3, ctx.n(6, 50)), ("2q", 4, ctx.n(2, 14))):
+    for shape, d, cnt in (("1q", 2, ctx.n(10, 80)), ("3", 3, ctx.n(4, 50)), ("2q", 4, ctx.n(1, 14))):
         for i in range(cnt):
             for mode in (0, 1, 2):
                 kind = rng.choice(["generic", "generic", "mixed", "proj"])
